@@ -1185,6 +1185,16 @@ type c17Tok struct {
 	m      map[string]string
 	inSums map[string]string // token -> digest, for the tokens printed inside sums tables
 	seenP1 map[string]bool   // part-1 texts already handed to the parser model for this case
+	name   string            // the case's archive name, bound once as [nm] around the case term
+}
+
+// the case's own name is written as the let-bound variable nm (it occurs some 600 times per
+// case and elaborating string literals dominates the Coq time)
+func (t *c17Tok) nameRef(n string) string {
+	if t.name != "" && n == t.name {
+		return "nm"
+	}
+	return c17Str(n)
 }
 
 // a value of a sums table: as val, and the token is remembered for k_toks
@@ -1284,7 +1294,7 @@ func c17CoqTab(tk *c17Tok, t *c17Tab, elide bool, base *c17Tab) string {
 }
 
 func c17CoqCheck(tk *c17Tok, r *c17Res) string {
-	return fmt.Sprintf("(mkCheck %s %s %s %s %s %s)", c17Str(r.Name), c17Str(tk.hex(r.Sha)), hx.CoqBool(r.SigOK), hx.CoqBool(r.KrLoads),
+	return fmt.Sprintf("(mkCheck %s %s %s %s %s %s)", tk.nameRef(r.Name), c17Str(tk.hex(r.Sha)), hx.CoqBool(r.SigOK), hx.CoqBool(r.KrLoads),
 		hx.CoqOpt(c17Str(tk.val(r.Hash)), r.OK), hx.CoqOpt(c17Str(tk.val(r.HashVC)), r.OKvc))
 }
 
@@ -1303,7 +1313,7 @@ func c17SameTab(a, b *c17Tab) bool {
 
 func (*c17) CoqCase(ci, oi any) string {
 	c, obs := ci.(c17Case), oi.(c17Obs)
-	tk := &c17Tok{m: map[string]string{}}
+	tk := &c17Tok{m: map[string]string{}, name: c.Name}
 	var base *c17Tab
 	var checks, provs, dls []string
 	for i, m := range c.Muts {
@@ -1412,7 +1422,7 @@ func (*c17) CoqCase(ci, oi any) string {
 		files = append(files, hx.CoqPair(tab, c17CoqFile(tk, f, r)))
 	}
 	baseTab := c17CoqTab(tk, base, false, nil)
-	return fmt.Sprintf("mkCase %s %s %s %s %s %s %s %s", baseTab, hx.CoqList(checks), hx.CoqList(provs), hx.CoqList(dls), hx.CoqList(signs),
+	return fmt.Sprintf("(let nm := %s in let ida := %s in let idb := %s in mkCase %s %s %s %s %s %s %s %s)", c17Str(c.Name), c17Str(c17Ident("A")), c17Str(c17Ident("B")), baseTab, hx.CoqList(checks), hx.CoqList(provs), hx.CoqList(dls), hx.CoqList(signs),
 		hx.CoqList(sigs), hx.CoqList(files), tk.coqToks())
 }
 
